@@ -30,7 +30,8 @@ type foItem struct {
 	Idx  int    `json:"idx"`            // p = "n": the idx-th numbered file /w/n/<idx>-nnn...
 	Len  int    `json:"len,omitempty"`  // p = "L": 1 | 2 | 3 = prefix of 4 | 8 | 15 long components
 	What string `json:"what,omitempty"` // p = "L": "dir" (the prefix itself) | "miss" (<prefix>/miss-<idx>)
-	Mode string `json:"mode"`           // r | w | rw
+	Mode string `json:"mode"`           // name of a flag combination, see openFlag
+	Perm int    `json:"perm"`           // permission bits for a file the request creates
 	Mk   bool   `json:"mk"`
 }
 
@@ -69,13 +70,19 @@ type foCase struct {
 type foObs map[string]string
 
 type foRes struct {
-	Fd      bool   `json:"fd"`
-	Err     string `json:"err"`
-	Ident   string `json:"ident"`   // dev:ino of the returned descriptor
-	Pident  string `json:"pident"`  // dev:ino of lstat(path) after the call
-	Kind    string `json:"kind"`    // file type of the returned descriptor
-	Acc     string `json:"acc"`     // r | w | rw from F_GETFL
-	Cloexec bool   `json:"cloexec"` // FD_CLOEXEC
+	Fd      bool     `json:"fd"`
+	Err     string   `json:"err"`
+	Ident   string   `json:"ident"`   // dev:ino of the returned descriptor
+	Pident  string   `json:"pident"`  // dev:ino of lstat(path) after the call
+	Kind    string   `json:"kind"`    // file type of the returned descriptor
+	Acc     string   `json:"acc"`     // r | w | rw from F_GETFL
+	Cloexec bool     `json:"cloexec"` // FD_CLOEXEC
+	St      []string `json:"st"`      // status flags of the descriptor (F_GETFL): APPEND SYNC NONBLOCK DIRECT
+	Pmode   int      `json:"pmode"`   // permission bits of the path after the call
+	Osize   int      `json:"osize"`   // size of the file when Open returned
+	Wrote   bool     `json:"wrote"`   // the driver wrote its 3-byte token through the descriptor
+	Wsize   int      `json:"wsize"`   // size of the file after that write
+	Worig   bool     `json:"worig"`   // the file still starts with the 8 planted bytes after that write
 }
 
 type foEv struct {
@@ -252,14 +259,40 @@ func fdKind(mode uint32) string {
 	return "other"
 }
 
+// openFlag renders the named flag combination (FileOpsDefs!Flags)
 func openFlag(mode string) int {
 	switch mode {
 	case "w":
 		return os.O_WRONLY | os.O_CREATE | os.O_TRUNC
 	case "rw":
 		return os.O_RDWR | os.O_CREATE
+	case "a":
+		return os.O_WRONLY | os.O_APPEND
+	case "ac":
+		return os.O_WRONLY | os.O_APPEND | os.O_CREATE
+	case "rwa":
+		return os.O_RDWR | os.O_APPEND
+	case "x":
+		return os.O_WRONLY | os.O_CREATE | os.O_EXCL
+	case "rwt":
+		return os.O_RDWR | os.O_TRUNC
+	case "ws":
+		return os.O_WRONLY | os.O_SYNC | unix.O_CLOEXEC
+	case "rc":
+		return os.O_RDONLY | unix.O_CLOEXEC
 	}
 	return os.O_RDONLY
+}
+
+var trackedPath = map[string]bool{"a": true, "b": true, "c": true, "target": true}
+
+// contentOf: size of a container file and whether it still starts with the planted bytes
+func (e *env) contentOf(p string) (int, bool) {
+	b, err := os.ReadFile(e.root(p))
+	if err != nil {
+		return -1, false
+	}
+	return len(b), strings.HasPrefix(string(b), "planted\n")
 }
 
 // a call still blocked after this long is recorded as blocked (FIFO opened without O_NONBLOCK ...)
@@ -381,7 +414,7 @@ func (w *foWorker) run(c foCase) foOut {
 		case "open":
 			cmds := make([]container.OpenCmd, 0, len(op.Items))
 			for _, it := range op.Items {
-				cmds = append(cmds, container.OpenCmd{Path: itemPath(it), Flag: openFlag(it.Mode), Perm: 0644, MkdirAll: it.Mk})
+				cmds = append(cmds, container.OpenCmd{Path: itemPath(it), Flag: openFlag(it.Mode), Perm: os.FileMode(it.Perm), MkdirAll: it.Mk})
 			}
 			var res []container.OpenCmdResult
 			var cerr error
@@ -391,7 +424,7 @@ func (w *foWorker) run(c foCase) foOut {
 			}
 			if !ev.Blocked {
 				for i, rr := range res {
-					fr := foRes{}
+					fr := foRes{St: []string{}}
 					if rr.Err != nil {
 						fr.Err = clip(rr.Err.Error(), 200)
 					}
@@ -403,20 +436,48 @@ func (w *foWorker) run(c foCase) foOut {
 							fr.Ident = ident(&st)
 							fr.Kind = fdKind(st.Mode)
 						}
+						if err := unix.Fstat(fd, &st); err == nil {
+							fr.Osize = int(st.Size)
+						}
 						if i < len(op.Items) {
 							var ps unix.Stat_t
 							if err := unix.Lstat(e.root(itemPath(op.Items[i])), &ps); err == nil {
 								fr.Pident = ident(&ps)
+								fr.Pmode = int(ps.Mode & 0777)
 							}
 						}
+						fr.St = []string{}
 						if fl, err := unix.FcntlInt(uintptr(fd), unix.F_GETFL, 0); err == nil {
 							fr.Acc = []string{"r", "w", "rw", "?"}[fl&unix.O_ACCMODE]
+							if fl&unix.O_APPEND != 0 {
+								fr.St = append(fr.St, "APPEND")
+							}
+							if fl&unix.O_SYNC == unix.O_SYNC {
+								fr.St = append(fr.St, "SYNC")
+							}
+							if fl&unix.O_NONBLOCK != 0 {
+								fr.St = append(fr.St, "NONBLOCK")
+							}
+							if fl&unix.O_DIRECT != 0 {
+								fr.St = append(fr.St, "DIRECT")
+							}
 						}
 						if fl, err := unix.FcntlInt(uintptr(fd), unix.F_GETFD, 0); err == nil {
 							fr.Cloexec = fl&unix.FD_CLOEXEC != 0
 						}
 					}
 					ev.Res = append(ev.Res, fr)
+				}
+				// a real write through every writable descriptor of a tracked path, in item order
+				// (the descriptor is fresh: offset 0 unless it appends)
+				for i := range ev.Res {
+					if i >= len(op.Items) || !ev.Res[i].Fd || !trackedPath[op.Items[i].P] || openFlag(op.Items[i].Mode)&unix.O_ACCMODE == unix.O_RDONLY {
+						continue
+					}
+					if n, err := unix.Write(int(res[i].File.Fd()), []byte("APP")); err == nil && n == 3 {
+						ev.Res[i].Wrote = true
+					}
+					ev.Res[i].Wsize, ev.Res[i].Worig = e.contentOf(itemPath(op.Items[i]))
 				}
 				// close every distinct descriptor once (a faulty Open may hand out one number
 				// several times; closing it repeatedly would hit unrelated descriptors of the driver)
